@@ -423,10 +423,6 @@ func c14(r *vkit.Run) {
 		r.SetMinDistinct(0)
 		return
 	}
-	if os.Getenv("VROUTE_ONLY_DUP") != "" { // developer aid only (timing of the duplicate family)
-		c14Dup(r)
-		return
-	}
 	perHazard := r.N(20, 120)
 	R := r.N(40, 400)
 	n := perHazard * len(c14Hazards)
